@@ -622,7 +622,7 @@ func retract(users []*Package, name string, vv *VarVal, fi *FuncInfo, alive bool
 				hit = true
 				// Another used package may export the same name.
 				for _, p := range u.Uses {
-					if xv := p.vars[name]; xv != nil && xv != vv && xv.Export && (xv.Pkg == p || u.reaches(xv.Pkg)) {
+					if xv := p.vars[name]; xv != nil && xv != vv && xv.Export && Unbound != xv.Val && (xv.Pkg == p || u.reaches(xv.Pkg)) {
 						u.vars[name] = xv
 						break
 					}
